@@ -84,6 +84,8 @@ IccSeg(seq, total, pid) == [t |-> "ICC", seq |-> seq, total |-> total, pid |-> p
 Other(kind) == [t |-> "OTHER", kind |-> kind]   \* APP1/COM/DQT/DHT/DRI/APP2 that is not ICC
 Sos == [t |-> "SOS"]
 
+JpegOtherKinds == { "app0", "app1", "app2", "app3", "app4", "app5", "app6", "app7", "app8", "app9",
+                    "app10", "app11", "app12", "app13", "app14", "app15", "com", "dqt", "dht", "dri" }
 JpegSofs == { Sof(0, 8, 16, 15, 3), Sof(2, 8, 1, 65535, 1), Sof(0, 12, 65535, 256, 4),
               Sof(2, 8, 257, 258, 3) }
 JpegLetters == { IccSeg(s, t, p) : s \in 0..3, t \in 1..2, p \in 1..2 } \cup
@@ -95,6 +97,9 @@ JpegFiles(MaxLetters) ==
     UNION { { InsertAt(b, pos, sf) \o <<Sos>> : b \in JpegBodies(k), pos \in 0..k,
                 sf \in (IF k = 0 THEN JpegSofs ELSE {Sof(0, 8, 16, 15, 3)}) }
             : k \in 0..MaxLetters }
+    \cup  \* every segment kind the format allows before the scan, before and after the SOF
+    UNION { { <<Other(k), Sof(0, 8, 16, 15, 3), Sos>>, <<Sof(2, 8, 257, 258, 3), Other(k), Sos>>,
+              <<Other(k), IccSeg(1, 1, 1), Other(k), Sof(0, 8, 16, 15, 1), Sos>> } : k \in JpegOtherKinds }
     \cup  \* well-formed multi-chunk embeddings beyond the free-letter bound:
           \* 3 chunks in every order, SOF before / among / after, other segments between
     { InsertAt(<<IccSeg(p[1], 3, p[1]), Other("dqt"), IccSeg(p[2], 3, p[2]), IccSeg(p[3], 3, p[3])>>,
